@@ -4,6 +4,7 @@ import (
 	"context"
 	"errors"
 	"fmt"
+	"runtime"
 	"strings"
 	"sync"
 	"sync/atomic"
@@ -34,6 +35,7 @@ type OpResult struct {
 	Matched   int64    `json:"m,omitempty"`
 	Modified  int64    `json:"d,omitempty"`
 	Upserted  int64    `json:"u,omitempty"`
+	Leak      bool     `json:"leak,omitempty"`  // wtx: the session still held its transaction when WithTransaction was left
 	Key       string   `json:"key,omitempty"`   // pop/popu: _id of the returned job; claim: the job addressed
 	Doc       string   `json:"doc,omitempty"`   // findOneAndUpdate: returned document
 	Docs      []string `json:"docs,omitempty"`  // find: contents
@@ -350,6 +352,9 @@ func (w *World) Do(a *actor, idx int, op Op) {
 	}
 	for rep := 0; rep < n; rep++ {
 		info := modelCall(op)
+		if op.Kind == "usess" {
+			info = CallInfo{Call: "sessStart", Sess: 100*a.id + idx + 1, Op: "usess"}
+		}
 		if (op.Kind == "ecommit" || op.Kind == "eabort") && !w.Handle(a.id) {
 			info.Call = "none"
 		}
@@ -386,6 +391,13 @@ func (w *World) call(ctx context.Context, a *actor, idx, sub int, op Op, inWtx b
 		if p := recover(); p != nil {
 			res.Cls = "panic"
 			res.Panic = fmt.Sprint(p)
+		}
+		if op.Kind == "wtx" && !inWtx {
+			// however WithTransaction was left (return, error, panic, Goexit): the session must not hold
+			// its transaction any more
+			if hasTxn, _, _ := sessionPeek(w.Sessions[op.Sess]); hasTxn {
+				res.Leak = true
+			}
 		}
 		h.OwnCommit = atomic.LoadInt64(&a.pubs) > own0
 		h.Pub1 = c.Published()
@@ -561,28 +573,87 @@ func (w *World) call(ctx context.Context, a *actor, idx, sub int, op Op, inWtx b
 	case "send":
 		w.Sessions[op.Sess].EndSession(ctx)
 	case "wtx":
-		_, err = w.Sessions[op.Sess].WithTransaction(ctx, func(sc lungo.ISessionContext) (interface{}, error) {
-			// the start sub-call has returned
-			c.noteRet(a.id, &OpResult{Cls: "ok"}, false)
-			for j, in := range op.Inner {
-				in.Sess = op.Sess
-				ci := modelCall(in)
-				ci.Sub = true
-				c.noteCall(a.id, ci)
-				r := w.call(sc, a, idx, 100+j, in, true)
-				c.noteRet(a.id, r, false)
-				if r.Cls == "panic" {
-					panic(r.Panic)
+		sess := w.Sessions[op.Sess]
+		body := func() {
+			_, err = sess.WithTransaction(ctx, func(sc lungo.ISessionContext) (interface{}, error) {
+				// the start sub-call has returned
+				c.noteRet(a.id, &OpResult{Cls: "ok"}, false)
+				for j, in := range op.Inner {
+					in.Sess = op.Sess
+					ci := modelCall(in)
+					ci.Sub = true
+					c.noteCall(a.id, ci)
+					r := w.call(sc, a, idx, 100+j, in, true)
+					c.noteRet(a.id, r, false)
+					if r.Cls == "panic" {
+						panic(r.Panic)
+					}
 				}
+				switch op.Fault {
+				case "cbPanic":
+					panic("injected callback panic")
+				case "cbErr":
+					return nil, errCallback
+				case "goexit":
+					runtime.Goexit() // the deferred AbortTransaction must still run
+				case "cbCommit":
+					// the callback commits by itself; WithTransaction's own commit then finds no transaction
+					_ = sc.CommitTransaction(sc)
+				case "cbAbort":
+					_ = sc.AbortTransaction(sc)
+				case "nested":
+					// WithTransaction on the same session from inside the callback: must fail ("existing"), not wedge
+					c.noteCall(a.id, CallInfo{Call: "sessStart", Sess: op.Sess, Op: "wtx-nested", Sub: true})
+					_, e := sess.WithTransaction(sc, func(lungo.ISessionContext) (interface{}, error) { return nil, nil })
+					c.noteRet(a.id, &OpResult{Cls: Classify(e)}, false)
+				}
+				return nil, nil
+			})
+		}
+		if op.Fault == "goexit" {
+			if w.runAdopted(a, body) {
+				res.Cls = "goexit"
 			}
-			switch op.Fault {
-			case "cbPanic":
-				panic("injected callback panic")
-			case "cbErr":
-				return nil, errCallback
+		} else {
+			body()
+		}
+	case "usess":
+		// Client.UseSession with a callback that starts a transaction, writes, and leaves in one of five
+		// ways (op.Fault = "" commit and return | err | cbPanic | goexit | nocommit): the session must be
+		// ended on EVERY way out, which aborts the abandoned transaction and frees the writer slot
+		sid := 100*a.id + idx + 1 // UseSession creates its own session: a fresh id for the model
+		mode := op.Fault
+		body := func() {
+			err = w.Client.UseSession(ctx, func(sc lungo.ISessionContext) error {
+				e := sc.StartTransaction()
+				c.noteRet(a.id, &OpResult{Cls: Classify(e)}, false)
+				if e != nil {
+					return e
+				}
+				in := Op{Kind: "ins", Sess: sid}
+				c.noteCall(a.id, CallInfo{Call: "useTx", Lock: true, Sess: sid, Op: "ins", Sub: true})
+				r := w.call(sc, a, idx, 100, in, true)
+				c.noteRet(a.id, r, false)
+				switch mode {
+				case "err", "cbErr":
+					return errCallback
+				case "cbPanic":
+					panic("injected callback panic")
+				case "goexit":
+					runtime.Goexit()
+				case "nocommit":
+					return nil
+				}
+				return sc.CommitTransaction(sc)
+			})
+		}
+		if mode == "goexit" {
+			if w.runAdopted(a, body) {
+				res.Cls = "goexit"
 			}
-			return nil, nil
-		})
+		} else {
+			body()
+		}
 	case "ebegin":
 		var t *lungo.Transaction
 		t, err = w.Engine.Begin(ctx, op.Lock)
@@ -654,6 +725,33 @@ func (w *World) call(ctx context.Context, a *actor, idx, sub int, op Op, inWtx b
 		res.Cls = Classify(err)
 	}
 	return res
+}
+
+// runAdopted runs f on a fresh goroutine that takes over the actor's identity for the hooks (needed
+// when f ends its goroutine with runtime.Goexit); a panic of f is re-raised in the caller.  It
+// reports whether f left through Goexit.
+func (w *World) runAdopted(a *actor, f func()) (exited bool) {
+	c := w.ctl
+	done := make(chan struct{})
+	var pv interface{}
+	normal := false
+	go func() {
+		defer close(done)
+		restore := c.adopt(a)
+		defer restore()
+		defer func() {
+			if !normal {
+				pv = recover() // nil for Goexit
+			}
+		}()
+		f()
+		normal = true
+	}()
+	<-done
+	if pv != nil {
+		panic(pv)
+	}
+	return !normal
 }
 
 // Handle reports whether the actor holds a transaction handle from ebegin.
